@@ -139,7 +139,6 @@ class ProcessExecutor:
         futures_to_start = list(self._pending_future_to_thunk.keys())[:start_count]
         for future in futures_to_start:
             thunk = self._pending_future_to_thunk[future]
-            del self._pending_future_to_thunk[future]
             process = self.mp_context.Process(  # type: ignore[attr-defined]
                 target=_subprocess_target,
                 kwargs=dict(
@@ -148,8 +147,13 @@ class ProcessExecutor:
                     result_queue=self._result_queue,
                 ),
             )
-            self._running_id_to_future_and_process[future.id] = (future, process)
+            # The future stays pending (and can still be cancelled) until
+            # its process has really been started: an interrupt during
+            # start() must not leave a future that is neither pending
+            # nor running, nor a "running" process that was never started.
             process.start()
+            self._running_id_to_future_and_process[future.id] = (future, process)
+            del self._pending_future_to_thunk[future]
 
     def submit(self, fn: Callable, /, *args, **kwargs) -> Future:
         """Schedule the given fn to be called with the given *args and
